@@ -103,6 +103,35 @@ CHECKS = {
         note=_STATIC_NOTE + " Not decided: preservation for every document (value-level).",
         technique="static analysis: vocabulary agreement (class fields vs call keywords vs attribute reads), CFG ordering of yields, sibling contradiction rule",
     ),
+    "C04": dict(
+        text="Static discharge of encoder/decoder agreement: abstract return-shape analysis of DictEncoder.encode, key-vocabulary agreement between encoder and "
+        "decoder (wrapper nesting included), generic key sets derived from class fields, exact-type choice lookup, strict candidate configs, dict-shape guards.",
+        design_ref="DESIGN.md section 4 C04",
+        note=_STATIC_NOTE + " Not decided: equality after decode for all instances; best-class scoring outcomes.",
+        technique="static analysis: return-shape abstraction with control dependence, vocabulary agreement, CFG dominance of isinstance guards",
+    ),
+    "C16": dict(
+        text="Static discharge of DTD mapper dispatch and spec-table clauses: totality of every enum dispatch, branch-wise constant extraction equal to the XML 1.0 "
+        "occurrence and attribute-default tables, attribute type codes, xmlns handling with a per-element fresh namespace map, truthy unique choice ids.",
+        design_ref="DESIGN.md section 4 C16",
+        note=_STATIC_NOTE + " Not decided: that DTD-valid documents round-trip through the generated classes (the generator cannot run here).",
+        technique="static analysis: enum-dispatch exhaustiveness, branch-wise constant extraction vs specification table, pairing rule, freshness (alias) check",
+    ),
+    "C17": dict(
+        text="Static discharge of the client wiring clause only (last sentence of the property): def-use wiring of Client.send, header table with copy of the caller's "
+        "headers, payload type check, Config vocabulary, exact (non-substring) WSDL part selection.",
+        design_ref="DESIGN.md section 4 C17",
+        note=_STATIC_NOTE + " Explicitly NOT decided: generation of services/envelopes for arbitrary WSDL definitions.",
+        technique="static analysis: def-use / single-assignment wiring check, CFG control dependence for the header table, vocabulary agreement",
+    ),
+    "C18": dict(
+        text="Static discharge of emission clauses: type registration dominates every emission and recursion goes through repr_object; emitted heads are rooted at "
+        "imported names (__qualname__ agreement, top-level component); delimiters per container kind; `import module` for module-qualified reprs; library "
+        "__repr__s by __qualname__; no cross-call state.",
+        design_ref="DESIGN.md section 4 C18",
+        note=_STATIC_NOTE + " Not decided: equality of the evaluated object for all values (NaN, user-defined __repr__).",
+        technique="static analysis: CFG dominance, def-use agreement between emission and import construction, totality over container kinds",
+    ),
 }
 
 NOT_APPLICABLE = [
